@@ -2,8 +2,8 @@
 """Regenerates MANIFEST.json from lean/obligations.json + lib/manifest_texts.json."""
 import json, os
 ROOT = os.path.dirname(os.path.dirname(os.path.abspath(__file__)))
-obs = json.load(open(os.path.join(ROOT, "lean", "obligations.json")))
-texts = json.load(open(os.path.join(ROOT, "lib", "manifest_texts.json")))
+obs = {fn[:-5]: json.load(open(os.path.join(ROOT, "lean", "obligations", fn))) for fn in sorted(os.listdir(os.path.join(ROOT, "lean", "obligations"))) if fn.endswith(".json")}
+texts = {fn[:-5]: json.load(open(os.path.join(ROOT, "lib", "manifest", fn))) for fn in sorted(os.listdir(os.path.join(ROOT, "lib", "manifest"))) if fn.endswith(".json")}
 props = [json.loads(l) for l in open(os.path.join(ROOT, "properties.jsonl"))]
 checks, na = [], []
 for p in props:
@@ -34,9 +34,9 @@ m = {
         "add_only": True,
     },
     "engines": [
-        {"name": "lean", "path": "/verif/lean", "serves_properties": sorted(obs), "kind_free_text": "Lean 4.33 Lake project WR: models, specs, property theorems (WR/Props), per-property model drivers (lean_exe)"},
-        {"name": "wrh", "path": "/verif/harness", "serves_properties": sorted(obs), "kind_free_text": "Go harness: fact extractor/translator (wrh facts), correspondence + judge + search runs against the real code in process (wrh run)"},
-        {"name": "check", "path": "/verif/check", "serves_properties": sorted(obs), "kind_free_text": "orchestrator: rebuild, theorem re-check, axiom audit, verdict rules, evidence"},
+        {"name": "lean", "path": "/verif/lean", "serves_properties": [c["property_id"] for c in checks], "kind_free_text": "Lean 4.33 Lake project WR: models, specs, property theorems (WR/Props), per-property model drivers (lean_exe)"},
+        {"name": "wrh", "path": "/verif/harness", "serves_properties": [c["property_id"] for c in checks], "kind_free_text": "Go harness: fact extractor/translator (wrh facts), correspondence + judge + search runs against the real code in process (wrh run)"},
+        {"name": "check", "path": "/verif/check", "serves_properties": [c["property_id"] for c in checks], "kind_free_text": "orchestrator: rebuild, theorem re-check, axiom audit, verdict rules, evidence"},
     ],
     "checks": checks,
     "not_applicable": na,
